@@ -76,7 +76,7 @@ func (w *world) cand(kind string) *channel.State {
 		s = cur.Clone()
 	}
 	s.Version++
-	if s.Balances[0][0].Sign() > 0 { // participant 0 pays one unit to participant 1
+	if len(s.Balances[0]) >= 2 && s.Balances[0][0].Sign() > 0 { // participant 0 pays one unit to participant 1
 		s.Balances[0][0].Sub(s.Balances[0][0], big.NewInt(1))
 		s.Balances[0][1].Add(s.Balances[0][1], big.NewInt(1))
 	}
@@ -91,6 +91,13 @@ func (w *world) cand(kind string) *channel.State {
 		s.ID[0] ^= 1
 	case "sum+1":
 		s.Balances[0][0].Add(s.Balances[0][0], big.NewInt(1))
+	case "dropcol": // one balance column fewer than the channel has participants (forced updates are unchecked)
+		if n := len(s.Balances[0]); n > 1 {
+			s.Balances[0][n-2].Add(s.Balances[0][n-2], s.Balances[0][n-1])
+			s.Balances[0] = s.Balances[0][:n-1]
+		}
+	case "addcol":
+		s.Balances[0] = append(s.Balances[0], big.NewInt(0))
 	default:
 		panic(kind)
 	}
@@ -192,6 +199,9 @@ func validNext(w *world, kind string, actor int) bool {
 	if w.rCurFin || actor >= w.v.N {
 		return false
 	}
+	if len(w.m.State().Balances[0]) != w.v.N {
+		return false // the candidate inherits the column count of a force-installed current state
+	}
 	if kind != "next" && kind != "final" {
 		return false
 	}
@@ -264,6 +274,9 @@ func ops(v variant) []op {
 		if k != "next" && k != "final" {
 			continue
 		}
+	}
+	for _, k := range []string{"next", "final", "dropcol", "addcol"} {
+		k := k
 		o = append(o, op{name: "ForceUpdate(" + k + ")", offered: func(w *world) bool { return hasCur(w) && capOK(w) },
 			arg: func(w *world) *channel.State { return w.cand(k) },
 			run: func(w *world, s *channel.State) error { return w.m.ForceUpdate(s, 0) },
@@ -433,6 +446,42 @@ func (w *world) clone() *world {
 type viol struct{ prop, clause, detail string }
 
 // apply runs one operation on the real machine and on the reference; returns a violation or nil.
+// applyAll runs one operation and returns every violated clause: the first failing clause of
+// the phase protocol (C09) AND, judged independently on the machine's state afterwards, the
+// signature invariants (C01) - one property must not mask the other.
+func (w *world) applyAll(o *op) []*viol {
+	var out []*viol
+	before := w.snapshot()
+	if v := w.apply(o); v != nil {
+		out = append(out, v)
+		if v.prop == "C01" {
+			return out
+		}
+	}
+	func() {
+		defer func() { recover() }() //nolint:errcheck
+		if v := w.c01(o, before); v != nil {
+			out = append(out, v)
+		}
+	}()
+	return out
+}
+
+// c01: the signature invariants, evaluated on the real machine.
+func (w *world) c01(o *op, before snap) *viol {
+	// the current state is fully signed unless adopted from a progression event
+	if cur := w.m.CurrentTX(); cur.State != nil && !w.rCurProg {
+		if st := w.sigStatus(cur); st != strings.Repeat("V", w.v.N) || len(cur.Sigs) != w.v.N {
+			return &viol{"C01", "current-not-fully-signed", fmt.Sprintf("current state v%d has signature status %s (%d slots for %d participants) after %s (phase before %v)", cur.Version, st, len(cur.Sigs), w.v.N, o.name, before.Phase)}
+		}
+	}
+	// "stored with it": every stored staging signature verifies for its slot over exactly the staged state
+	if st := w.sigStatus(w.m.StagingTX()); strings.Contains(st, "X") {
+		return &viol{"C01", "staged-invalid-sig", fmt.Sprintf("staged slot holds a signature that does not verify (%s) after %s (phase before %v)", st, o.name, before.Phase)}
+	}
+	return nil
+}
+
 func (w *world) apply(o *op) (v *viol) {
 	before := w.snapshot()
 	defer func() {
@@ -470,16 +519,6 @@ func (w *world) apply(o *op) (v *viol) {
 				return &viol{"C09", "post-sigs", fmt.Sprintf("%s from %v: staged signature slots %s, reference %v", o.name, before.Phase, st, w.rSigs)}
 			}
 		}
-	}
-	// C01: the current state is fully signed unless adopted from a progression event.
-	if cur := w.m.CurrentTX(); cur.State != nil && !w.rCurProg {
-		if st := w.sigStatus(cur); st != strings.Repeat("V", w.v.N) {
-			return &viol{"C01", "current-not-fully-signed", fmt.Sprintf("current state v%d has signature status %s after %s (phase before %v)", cur.Version, st, o.name, before.Phase)}
-		}
-	}
-	// C01, "stored with it": every stored staging signature verifies for its slot over exactly the staged state.
-	if st := w.sigStatus(w.m.StagingTX()); strings.Contains(st, "X") {
-		return &viol{"C01", "staged-invalid-sig", fmt.Sprintf("staged slot holds a signature that does not verify (%s) after %s (phase before %v)", st, o.name, before.Phase)}
 	}
 	// C17 (machine part): every state the machine holds carries the ID of its parameters... for states it created itself (Init).
 	if strings.HasPrefix(o.name, "Init(") && err == nil {
@@ -528,8 +567,8 @@ func search(t *testing.T, res *report.Result, v variant) {
 	build := func(h []int) (*world, *viol) {
 		w := newWorld(v)
 		for _, k := range h {
-			if vi := w.apply(&all[k]); vi != nil {
-				return w, vi
+			if vis := w.applyAll(&all[k]); len(vis) > 0 {
+				return w, vis[0]
 			}
 		}
 		return w, nil
@@ -555,11 +594,12 @@ func search(t *testing.T, res *report.Result, v variant) {
 				continue
 			}
 			res.Count("transitions", 1)
-			vi = w.apply(&all[k])
-			if vi != nil {
-				sig := fmt.Sprintf("%s:%s:%s/%s", vi.prop, vi.clause, v.App, strings.SplitN(all[k].name, "(", 2)[0])
-				res.Violate(vi.prop, sig, fmt.Sprintf("[%s] %s   after %v", v.Name, vi.detail, names(all, h)),
-					replay{"machine", v, names(all, h), all[k].name})
+			if vis := w.applyAll(&all[k]); len(vis) > 0 {
+				for _, vi := range vis {
+					sig := fmt.Sprintf("%s:%s:%s/%s", vi.prop, vi.clause, v.App, strings.SplitN(all[k].name, "(", 2)[0])
+					res.ViolateC(vi.prop, sig, fmt.Sprintf("[%s] %s   after %v", v.Name, vi.detail, names(all, h)),
+						replay{"machine", v, names(all, h), all[k].name}, len(h))
+				}
 				continue
 			}
 			if w.snapshot() == base.snapshot() {
@@ -619,11 +659,13 @@ func runReplay(t *testing.T, res *report.Result, path string) {
 		if o == nil {
 			t.Fatalf("unknown op %q", n)
 		}
-		vi := w.apply(o)
+		vis := w.applyAll(o)
 		fmt.Printf("  %-28s -> phase=%v cur=%s stg=%s\n", n, w.m.Phase(), w.sigStatus(w.m.CurrentTX()), w.sigStatus(w.m.StagingTX()))
-		if vi != nil {
+		for _, vi := range vis {
 			fmt.Printf("  VERDICT %s %s: %s\n", vi.prop, vi.clause, vi.detail)
 			res.Violate(vi.prop, fmt.Sprintf("%s:%s:%s/%s", vi.prop, vi.clause, rp.Variant.App, strings.SplitN(n, "(", 2)[0]), vi.detail, rp)
+		}
+		if len(vis) > 0 {
 			return
 		}
 	}
